@@ -44,7 +44,8 @@ pub fn check_tree(ctx: &Ctx, c: &Case, count: bool) -> Verdict {
     for d in &tree.dirs { if d.url != "/" && d.has_index { paths.push(d.url.clone()); paths.push(format!("{}/", d.url)); } }
     paths.retain(|p| !p.contains('#') && !p.contains('?'));
     paths.sort(); paths.dedup();
-    let fixed_variants: [(&str, &str); 6] = [
+    let fixed_variants: [(&str, &str); 7] = [
+        ("multirange", "Range: bytes=0-0, 2-3\r\n"),
         // what a browser sends for fetch(url, {method: 'PUT'}) without custom headers, and for a GET with a custom header
         ("preflight-method-only", "Origin: https://app.example\r\nAccess-Control-Request-Method: PUT\r\n"),
         ("preflight-headers-only", "Origin: https://app.example\r\nAccess-Control-Request-Headers: X-Custom, Content-Type\r\n"),
@@ -66,6 +67,7 @@ pub fn check_tree(ctx: &Ctx, c: &Case, count: bool) -> Verdict {
             let variants: Vec<(&str, &str)> = fixed_variants.iter().cloned().chain(std::iter::once(("vocabulary", hv.as_str()))).collect();
             for (vname, extra) in variants.iter() {
                 if *vname == "range" && selected_len == 0 { continue; }
+                if *vname == "multirange" && selected_len < 4 { continue; }
                 let (g_out, g_res) = send("GET", path, extra, entry);
                 let (h_out, h_res) = send("HEAD", path, extra, entry);
                 let (o_out, o_res) = send("OPTIONS", path, extra, entry);
@@ -101,7 +103,7 @@ pub fn check_tree(ctx: &Ctx, c: &Case, count: bool) -> Verdict {
                 }
                 let nt = path != "/";
                 *classes.entry(match &sel { Selected::File { rule, .. } => match *rule { "dir-index" => "dir-index", "html-fallback" => "html-fallback", "root-index" => "root-index", "asset" => "asset-file", _ => "file" }, Selected::BuiltIn(_) => "built-in", _ => "?" }).or_insert(0) += 1;
-                *classes.entry(match *vname { "plain" => "variant-plain", "origin" => "variant-origin", "preflight" => "variant-preflight", "preflight-method-only" => "variant-preflight-method-only", "preflight-headers-only" => "variant-preflight-headers-only", "vocabulary" => "variant-vocabulary-headers", _ => "variant-range" }).or_insert(0) += 1;
+                *classes.entry(match *vname { "plain" => "variant-plain", "origin" => "variant-origin", "preflight" => "variant-preflight", "multirange" => "variant-multirange", "preflight-method-only" => "variant-preflight-method-only", "preflight-headers-only" => "variant-preflight-headers-only", "vocabulary" => "variant-vocabulary-headers", _ => "variant-range" }).or_insert(0) += 1;
                 if legacy { *classes.entry("legacy-entry").or_insert(0) += 1; }
                 if count && nt {
                     ctx.nontrivial.borrow_mut().insert(hash64(&(hash64(&format!("{:?}", c.tree)), path.clone(), *vname, legacy)));
